@@ -3,6 +3,7 @@ CONSTANTS
   MaxArr = 3
   MaxCap = 2
   Full = FALSE
+  Directed = FALSE
   Quiet = TRUE
 INIT Init
 NEXT Next
